@@ -347,6 +347,43 @@ def parse_where(text):
     return out
 
 
+_srccache = {}
+
+
+def case_block(path, line, fstart, fend):
+    """innermost `case`/`default` block of a switch that contains `line` -> (first, last) line"""
+    if path not in _srccache:
+        try:
+            _srccache[path] = open(path, errors="replace").read().split("\n")
+        except OSError:
+            _srccache[path] = []
+    src = _srccache[path]
+    lab = re.compile(r"^(\s*)(?:case\b.*|default\s*):")
+
+    def ind(m):
+        return len(m.group(1).expandtabs(8))
+    first = None
+    for n in range(min(line, len(src)), fstart, -1):
+        m = lab.match(src[n - 1])
+        if m:
+            first, indent = n, ind(m)
+            break
+    if first is None:
+        return (max(fstart, line - 15), min(fend, line + 15))
+    while first - 1 > fstart and lab.match(src[first - 2]):      # stacked labels
+        first -= 1
+    last = fend
+    for n in range(line + 1, min(fend, len(src)) + 1):
+        m = lab.match(src[n - 1])
+        if m and ind(m) <= indent:
+            last = n - 1
+            break
+        if re.match(r"^\s*}", src[n - 1]) and len(re.match(r"^(\s*)", src[n - 1]).group(1).expandtabs(8)) < indent:
+            last = n - 1           # the switch itself ends
+            break
+    return (first, last)
+
+
 def resolve_anchors(prop, files):
     """-> per file: dict(scope='functions'|'file'|'none', funcs={name: why}, spans=[(a,b) mapped])"""
     base = base_rev()
@@ -396,7 +433,12 @@ def resolve_anchors(prop, files):
                     fe["why"].append("%s:%s" % (os.path.basename(rel), old))
                     ext = d["end"] - d["start"] + 1
                     inter = min(nb, d["end"]) - max(na, d["start"]) + 1
-                    if a == b or inter >= 0.8 * ext:
+                    if a == b and ext > 120 and na > d["start"] + 6:
+                        # a point in the interior of a very large function (a message dispatcher):
+                        # the anchor means the `case` block (or neighbourhood) around that line
+                        fe["spans"].append(case_block(os.path.join(REPO, rel), na, d["start"], d["end"]))
+                        span_funcs.add((rel, n))
+                    elif a == b or inter >= 0.8 * ext:
                         fe["whole"] = True      # a point anchor, or the span is (nearly) the function
                     else:
                         fe["spans"].append((max(na, d["start"]), min(nb, d["end"])))
@@ -431,6 +473,8 @@ ALLOC = re.compile(r"\b\w*alloc\w*\s*\(|\bstrdup\s*\(|\bsraRgnCreate\w*\s*\(|\bs
                    r"\b\w*(?:Create|New|Make)\w*\s*\(|\bfopen\s*\(|\bopendir\s*\(")
 ALLOCASSIGN = re.compile(r"([A-Za-z_][\w>.\-\[\]]*)\s*=\s*(?:\([^()]*\)\s*)?"
                          r"(?:\w*alloc\w*|strdup|sraRgnCreate\w*|sraRgnBBox|fopen|opendir|\w+(?:Create|New)\w*)\s*\(")
+IOCTL = re.compile(r"\b(?:rfbSendUpdateBuf|rfbWriteExact|rfbReadExact\w*|ReadFromRFBServer|WriteToRFBServer|"
+                   r"httpWriteExact|rfbSend\w+|rfbPushClientStream|SendCompressedData|CompressData)\s*\(")
 ENDIAN = re.compile(r"Swap(?:16|24|32|64)If(?:LE|BE)|rfbEndianTest|rfbClientSwap\d+IfLE")
 WINCOND = re.compile(r"WIN32|_WIN64|__MINGW|_MSC_VER|WINVER|__CYGWIN")
 
@@ -496,14 +540,24 @@ def classify(src, a, b, executed_before):
         tags.append("log-only")
     # allocation-failure branch: a variable assigned from an allocating call within the few lines
     # before (or inside the condition itself) is tested for NULL by the `if` that guards the range
-    pre = "\n".join(strip_comments_c(src[max(0, a - 9):min(b, a + 1)]))
-    ctl = "\n".join(strip_comments_c(src[max(0, a - 4):min(b, a + 1)]))
+    first = strip_comments_c(src[a - 1:a])[0]
+    head = [first] if re.match(r"\s*(?:}\s*else\s+)?if\b", first) else []
+    pre = "\n".join(strip_comments_c(src[max(0, a - 9):a - 1]) + head)
+    ctl = "\n".join(strip_comments_c(src[max(0, a - 4):a - 1]) + head)
     for m in ALLOCASSIGN.finditer(pre):
         v = re.escape(m.group(1))
         if re.search(r"if\s*\(\s*(?:!\s*%s\s*\)|%s\s*==\s*(?:NULL|0)\s*\)|NULL\s*==\s*%s\s*\))" % (v, v, v), ctl) \
                 or re.search(r"if\s*\(\s*(?:!\s*)?\(\s*%s\s*=[^=]" % v, ctl):
             tags.append("alloc-fail")
             break
+    # propagation of a failed read/write/send: the range only returns / jumps / frees, and the `if`
+    # that guards it tests the result of an I/O helper
+    ioctl = "\n".join(strip_comments_c(src[max(0, a - 4):a]))
+    only_exit = re.sub(r"\b(?:return\b[^;]*|goto\s+\w+|break|continue)\s*;|\bfree\s*\([^;]*\)\s*;|"
+                       r"\bsraRgn(?:Destroy|ReleaseIterator)\s*\([^;]*\)\s*;|\b(?:UN)?LOCK\s*\([^;]*\)\s*;|"
+                       r"[{}\s]|\belse\b", "", rest)
+    if only_exit == "" and IOCTL.search(ioctl):
+        tags.append("io-fail")
     if "log-only" not in tags and re.search(r"\breturn\b|\bgoto\b|rfbCloseClient|\bbreak\b", rest) \
             and LOGCALL.search(body) and len(re.sub(r"\s", "", rest)) < 160:
         tags.append("err-path")
@@ -786,6 +840,7 @@ def write_text(result, path, maxsrc=14):
          t["functions"], t["functions_never_called"]))
     w("legend: [log-only] only logging in the range   [alloc-fail] allocation/creation-failure branch")
     w("        [err-path] log + return/close (informational)   [not-compiled]/[win32] inactive #if branch")
+    w("        [io-fail] only propagates a failed read/write/send helper (informational)")
     w("        '*' = range overlaps a line span literally named by the anchor;  '>' marks never-executed lines")
     w("")
     w("%-58s %-7s %15s %15s" % ("file", "scope", "lines", "branches"))
